@@ -283,9 +283,12 @@ Theorem C06_bridge_accumulator :
   (* accumulator *)
   (forall (S R : Type) (agg : aggregation S R) (f : S -> frame -> S * R),
    (forall s b, Agg.on_new agg s b = Some (f s b)) ->
-   forall acc new, Some (Gen.KA_Accumulator.gen_accumulator (Agg.initial agg) f acc new) = accumulator agg acc new) /\
+   forall acc new, Some (Gen.KA_Accumulator.gen_accumulator (Agg.initial agg) f acc new) = accumulator agg acc new).
+Proof. exact (@bridge_accumulator). Qed.
+Print Assumptions C06_bridge_accumulator.
+Theorem C06_bridge_diff :
   (* diff_expanding *)
   (forall c dfs new, Gen.KA_Accumulator.gen_diff_expanding (frames_ops c) dfs new = (if nonempty new then dfs ++ [new] else dfs, [])).
-Proof. exact (conj (@bridge_accumulator) bridge_diff_expanding). Qed.
-Print Assumptions C06_bridge_accumulator.
+Proof. exact bridge_diff_expanding. Qed.
+Print Assumptions C06_bridge_diff.
 (* ---- aggregation bridges (harness/mkprops_aggs.py): end ---- *)
